@@ -88,6 +88,14 @@ ArgOptsOps2 == [ f |-> {<<ArgV("a", Lit("var", "n"))>>}, g |-> {<<ArgV("r", Lit(
 AlphaSchedP == AlphaOf([Query |-> {"lp"}, P |-> {"o"}, A |-> {"o"}, T |-> {"s", "d"}])
 AlphaCs == AlphaOf([Query |-> {"cs", "csn", "lcs", "o", "on"}, T |-> {"csn", "s"}])
 AlphaCsM == AlphaOf([Mutation |-> {"mcs", "mln", "m3"}, T |-> {"csn", "s"}])
+\* input object literals holding a variable that may have a value, be null, or have no value at all
+AlphaObjLit == AlphaOf([Query |-> {"h", "s"}])
+ArgOptsObjLit == [ f |-> {<<>>}, g |-> {<<>>},
+                   h |-> {<<ArgV("i", [t |-> "obj", v |-> << <<"r", Lit("int", 1)>>, <<"q", Lit("var", "n")>> >>])>>,
+                          \* (fields written in the order the input type declares them: the order of the delivered dictionary is not modelled)
+                          <<ArgV("i", [t |-> "obj", v |-> << <<"r", Lit("var", "m")>>, <<"q", Lit("var", "n")>> >>])>>,
+                          <<ArgV("i", [t |-> "obj", v |-> << <<"r", Lit("int", 1)>>, <<"l", [t |-> "list", v |-> <<Lit("int", 2), Lit("var", "n")>>]>> >>])>>,
+                          <<ArgV("i", [t |-> "obj", v |-> << <<"r", Lit("int", 1)>>, <<"n", [t |-> "obj", v |-> << <<"r", Lit("int", 2)>>, <<"q", Lit("var", "n")>> >>]>> >>])>>} ]
 OKindsRaise == {[o |-> "raise"]}
 VarValsSmall == [ v |-> {Bool(TRUE), Bool(FALSE)}, w |-> {Bool(FALSE)}, n |-> {Int(3)}, m |-> {Int(4)}, x |-> {Str("xs")}, y |-> {Int(5)} ]
 AlphaSub == AlphaOf([Subscription |-> {"ev", "evs"}, T |-> {"s", "sn"}])
